@@ -6,6 +6,10 @@
 (* each deterministic call.  The specification says:                       *)
 (*    - no call of the session changes `inputs`                            *)
 (*    - a deterministic call repeated in a session returns memo[call]      *)
+(* Mutators (in-place removals) are part of a session: they DO change the   *)
+(* inputs, and from then on the results are those of the new inputs (the    *)
+(* memo is forgotten); every other call must leave the inputs as the last   *)
+(* mutator left them.                                                      *)
 (* Results themselves are left abstract here (they are specified by the    *)
 (* other modules); the state machine is used to ENUMERATE every history of *)
 (* at most MaxLen calls (Gen configuration: hist is part of the state, so  *)
@@ -14,22 +18,24 @@
 (***************************************************************************)
 EXTENDS Naturals, Sequences, FiniteSets, TLC
 
-CONSTANTS Calls, Random, MaxLen      \* Random \subseteq Calls: calls whose result may legitimately vary
+CONSTANTS Calls, Random, Mutators, MaxLen   \* Random: calls whose result may legitimately vary; Mutators: in-place modifiers
 
 VARIABLES inputs, hist, memo
 vars == <<inputs, hist, memo>>
 
-Init == inputs = "D0" /\ hist = <<>> /\ memo = [c \in {} |-> 0]
+Init == inputs = <<>> /\ hist = <<>> /\ memo = [c \in {} |-> 0]      \* inputs: the mutators applied so far
 \* the result of a call is a function of the inputs only (abstractly: a token)
 ResultOf(c, inp) == <<c, inp>>
 Call(c) == /\ Len(hist) < MaxLen
            /\ hist' = Append(hist, c)
-           /\ inputs' = inputs                           \* the library must behave like this
-           /\ memo' = IF c \in Random \/ c \in DOMAIN memo THEN memo
-                      ELSE [d \in DOMAIN memo \cup {c} |-> IF d = c THEN ResultOf(c, inputs) ELSE memo[d]]
+           /\ IF c \in Mutators
+              THEN inputs' = Append(inputs, c) /\ memo' = [d \in {} |-> 0]
+              ELSE /\ inputs' = inputs                   \* the library must behave like this
+                   /\ memo' = IF c \in Random \/ c \in DOMAIN memo THEN memo
+                              ELSE [d \in DOMAIN memo \cup {c} |-> IF d = c THEN ResultOf(c, inputs) ELSE memo[d]]
 Next == \E c \in Calls : Call(c)
 Spec == Init /\ [][Next]_vars
 
-NoMutation    == [][inputs' = inputs]_vars
-Repeatable    == \A c \in DOMAIN memo : memo[c] = ResultOf(c, "D0")
+NoMutation    == [][Len(hist') > Len(hist) /\ hist'[Len(hist')] \notin Mutators => inputs' = inputs]_vars
+Repeatable    == \A c \in DOMAIN memo : memo[c] = ResultOf(c, inputs)
 =============================================================================
